@@ -20,6 +20,7 @@ RULE = (
     "(RefEval levels), no output of the failing node or of anything downstream of it, and no value different from the "
     "fault-free evaluation; same-step siblings may or may not be present. Non-trivial: the failing node has >= 1 "
     "upstream or downstream node; distinct = (program shape, failing node position, mode)."
+    ' A third of the programs have outputs that cannot be copied or pickled (UTerm); exception classes include falsy objects (__bool__ False, __len__ 0); the classes are used in turn for the map cases.'
 )
 ASSUMPTIONS = [
     "programs have no fallback on upstream-fed parameters here, so each node runs in exactly one step (levels are exact)",
